@@ -16,7 +16,7 @@ RULE = ("the C01 renderable-tree specs plus renderables without a measure method
         "line separators) for the widest-word / widest-line identities. Non-trivial: depth >=1 and "
         "minimum < maximum; distinct by (spec, width).")
 ASSUMPTIONS = ["structural minimum as in C01", "a 'line' of a text is a maximal run without '\\n'; words are split at whitespace"]
-REQUIRED = ["mon.bounds_contract", "mon.render_at_max", "mon.render_at_min", "mon.text_identities", "mon.text_not_wrapped_at_max"]
+REQUIRED = ["mon.text_rendered_at_reported", "mon.bounds_contract", "mon.render_at_max", "mon.render_at_min", "mon.text_identities", "mon.text_not_wrapped_at_max"]
 MIN_NONTRIVIAL = {"quick": 2000, "thorough": 100000}
 
 _installed = False
@@ -91,6 +91,10 @@ def wl_text(ctx, rng, case_no):
     _ctx[0] = ctx
     w = S.pick_weights(rng)
     s = S.free_string(rng, rng.choice([0, 5, 20, 60]), w, space=0.2, newline=0.06)
+    if rng.random() < 0.2:
+        s = S.sparse_odd_string(rng, 1, 200)
+        if rng.random() < 0.5:
+            s = s.replace(" ", "_")
     if rng.random() < 0.15 and s:
         pos = rng.randint(0, len(s))
         s = s[:pos] + rng.choice(S.SEPARATOR_ODDITIES) + s[pos:]
@@ -121,13 +125,27 @@ def wl_text(ctx, rng, case_no):
         n = len(list(wrapped))
         if n != len(lines):
             ctx.violation("text-wrapped-at-its-own-maximum" + tag, dict(wit, lines=n, want_lines=len(lines)))
+    # rendering at the reported minimum / maximum never produces a wider line, whatever wrapping options
+    if s.strip() and not odd and "\t" not in s:
+        need = 2 if S.has_wide(s) else 1
+        no_wrap = rng.choice([None, True, False])
+        overflow = rng.choice([None, "fold", "crop", "ellipsis"])
+        for v in sorted({mn, mx}):
+            if v < need:
+                continue
+            ctx.count("mon.text_rendered_at_reported")
+            widths, _ = SP.render_lines_cells(consoles.layout_console(v), Text(s, no_wrap=no_wrap, overflow=overflow))
+            if widths and max(widths) > v:
+                ctx.violation("text-rendered-at-reported-width-is-wider:%s" % ("no_wrap" if no_wrap else "wrapping"),
+                              dict(wit, rendered_at=v, line_widths=widths[:10], no_wrap=no_wrap, overflow=overflow))
+                break
     ctx.case_done(("t", s, W), len(words) >= 2 and mn < mx, wit)
 
 
 def workloads(tier):
     big = tier == "thorough"
     return [WL("trees", wl_trees, 120000 if big else 5000),
-            WL("text", wl_text, 600000 if big else 30000)]
+            WL("text", wl_text, 1000000 if big else 80000)]
 
 
 LEVEL_TEXT = ("Measures freshly built random renderable trees with the real Measurement.get - with a bounds contract "
